@@ -928,6 +928,9 @@ impl<'a> PublicRangeFinder<'a> {
                     .url_converter
                     .registry_package_url_to_nv(module.specifier())
                   {
+                    // the export might be declared in another package
+                    self.add_pending_nv(&nv, pkg_nv);
+
                     let mut new_named_exports = NamedSubset::default();
                     new_named_exports.0.insert(export_name, named_exports);
                     self.add_pending_trace(
